@@ -214,6 +214,32 @@ def handlePacket (v : Variant) (beh : Beh) (st : St) (hdr : Nat) : St :=
 /-- the dispatcher thread fed with a sequence of packets -/
 def run (v : Variant) (beh : Beh) (st : St) (hdrs : List Nat) : St := hdrs.foldl (handlePacket v beh) st
 
+/-! ### packets as `run` can observe them -/
+
+/-- a received `CRTPPacket`: header byte and payload length (0..30).  Besides `pk.port`/`pk.channel` the
+only thing `run` can observe of the object is its truthiness (the "no packet" test after `receive_packet`). -/
+structure Pkt where
+  hdr : Nat
+  len : Nat
+  deriving DecidableEq, Repr
+
+/-- `bool(pk)`: an object without `__bool__`/`__len__` is always true; with `__len__` = payload size a
+header-only packet is false (Gen: which of the two the class currently is) -/
+def Pkt.truthy (p : Pkt) : Bool := if Gen.C07.packetTruthyByLen then p.len != 0 else true
+
+/-- the test between `receive_packet` and the callbacks: `if pk is None: continue` never skips a packet,
+`if not pk: continue` skips the falsy ones -/
+def Pkt.skipped (p : Pkt) : Bool := if Gen.C07.recvSkipIsNone then false else !p.truthy
+
+/-- one iteration of `run` for a packet object handed out by the link -/
+def receive (v : Variant) (beh : Beh) (st : St) (p : Pkt) : St :=
+  if st.dead then st
+  else if p.skipped then st.push (.pkt p.hdr)       -- taken from the link and dropped
+  else handlePacket v beh st p.hdr
+
+/-- the dispatcher thread fed with a sequence of packet objects -/
+def runPkts (v : Variant) (beh : Beh) (st : St) (pkts : List Pkt) : St := pkts.foldl (receive v beh) st
+
 /-! ### projections of the trace -/
 
 def Ev.asCall : Ev → Option Reg
